@@ -180,7 +180,16 @@ def run(ctx):
     ctx.assumptions += ["numerical failures inside numpy/scipy/lmfit are runtime; the oracle only classifies what escapes",
                         "float accumulation in _RECENT_PROGRESS may flip a `>=` that is an equality over the rationals: the emitted streams are compared only when equally long (slips are counted)"]
     lines, expect = [], []
-    sizes = {"tiny": small_data(4), "small": small_data(12), "medium": small_data(30)}
+    circuit0 = None
+    sizes = {"tiny": small_data(4), "small": small_data(12), "medium": small_data(30), "n1": small_data(1), "n2": small_data(2), "n3": small_data(3), "n5": small_data(5)}
+    # the smallest spectra each entry point accepts (known finding F22: some are not refused up front)
+    for sz in ("n1", "n2", "n3", "tiny", "n5"):
+        d = sizes[sz]
+        call(ctx, "calculate_drt[tr-nnls]", lambda: calculate_drt(d, method="tr-nnls"), {"data": sz}, lines, expect)
+        call(ctx, "calculate_drt[lm]", lambda: calculate_drt(d, method="lm", model_order_method="pseudo_chisqr", num_procs=1), {"model_order_method": "pseudo_chisqr", "data": sz}, lines, expect)
+        call(ctx, "perform_kramers_kronig_test", lambda: perform_kramers_kronig_test(d, num_procs=1), {"data": sz}, lines, expect)
+        call(ctx, "perform_zhit", lambda: perform_zhit(d, num_procs=1), {"data": sz}, lines, expect)
+        call(ctx, "fit_circuit", lambda: fit_circuit(parse_cdc("R(RC)"), d, method="leastsq", weight="boukamp", num_procs=1), {"data": sz}, lines, expect)
 
     # ---- Kramers-Kronig
     tests = ["complex", "real", "imaginary", "complex-inv", "real-inv", "imaginary-inv", "cnls"]
